@@ -1,0 +1,7 @@
+//go:build !verif
+
+package messagequeue
+
+// verifHook is a no-op unless the package is built with the "verif" tag
+// (see verif_hook_on.go).
+func verifHook(*MessageQueue) {}
